@@ -490,7 +490,7 @@ def ops_conf_line(ops, cid):
 def identify_leg(ctx, binp, corr_broken):
     """Round 6: IDENTIFY field by field (`idn` ops replayed through Nsq.Model.Identify.identifyFull) and the
     model-free oracle "the response document reflects exactly what was applied to the connection"."""
-    N = ctx.budget(2500, 15000)
+    N = ctx.budget(2500, 10000)
     rc, out = ctx.run_cmd([binp, "-test.run", "^TestVerifE3Identify$", "-test.count=1", "-test.timeout=3000s"],
                           timeout=3200, env={"VERIF_SEED": ctx.seed, "VERIF_N": N, "VERIF_OUT": ctx.work,
                                              "VERIF_REPO": REPO})
@@ -601,7 +601,7 @@ def audit_leg(ctx, binp, corr_broken):
                     n += 1
                     with open(os.path.join(corpus, "%02d_%s_%s" % (n, sub or "min", fn)), "w") as f:
                         f.write(open(os.path.join(d, fn)).read())
-    N = ctx.budget(700, 7000)
+    N = ctx.budget(700, 5000)
     rc, out = ctx.run_cmd([binp, "-test.run", "^TestVerifE3Audit09$", "-test.count=1", "-test.timeout=3000s"],
                           timeout=3200, env={"VERIF_SEED": ctx.seed, "VERIF_N": N, "VERIF_OUT": ctx.work,
                                              "VERIF_REPO": REPO, "VERIF_CORPUS": corpus})
@@ -748,7 +748,7 @@ def run(ctx):
                 os.remove(os.path.join(corpus, fn))
             with open(os.path.join(corpus, "00_replay.ops"), "w") as f:
                 f.write(open(ctx.replay_in).read())
-        N = 0 if ctx.replay_in else ctx.budget(8000, 100000)
+        N = 0 if ctx.replay_in else ctx.budget(8000, 60000)
         rc, out = ctx.run_cmd([binp, "-test.run", "^TestVerifE3Proto$", "-test.count=1", "-test.timeout=3000s"],
                               timeout=3200, env={"VERIF_SEED": ctx.seed, "VERIF_N": N, "VERIF_OUT": ctx.work,
                                                  "VERIF_REPO": REPO, "VERIF_CORPUS": corpus})
